@@ -9,6 +9,7 @@ import (
 	"net"
 	"os"
 	"sync"
+	"sync/atomic"
 	"time"
 )
 
@@ -66,6 +67,8 @@ type Server struct {
 
 	wg   sync.WaitGroup
 	done chan struct{}
+	// closing is set (atomically) by the Close or Shutdown call that closes done
+	closing int32
 
 	locker    sync.Mutex
 	listeners []net.Listener
@@ -252,16 +255,26 @@ func (s *Server) ListenAndServeTLS() error {
 	return s.Serve(l)
 }
 
+// markClosed closes s.done. It reports false if that has been done (or is
+// being done) already: of any number of concurrent Close and Shutdown calls
+// exactly one goes ahead.
+func (s *Server) markClosed() bool {
+	// No lock: Close calls into the backend (Logout) with the server lock
+	// held, and a backend may call Close or Shutdown from there.
+	if !atomic.CompareAndSwapInt32(&s.closing, 0, 1) {
+		return false
+	}
+	close(s.done)
+	return true
+}
+
 // Close immediately closes all active listeners and connections.
 //
 // Close returns any error returned from closing the server's underlying
 // listener(s).
 func (s *Server) Close() error {
-	select {
-	case <-s.done:
+	if !s.markClosed() {
 		return ErrServerClosed
-	default:
-		close(s.done)
 	}
 
 	var err error
@@ -288,11 +301,8 @@ func (s *Server) Close() error {
 // Shutdown returns the context's error, otherwise it returns any
 // error returned from closing the Server's underlying Listener(s).
 func (s *Server) Shutdown(ctx context.Context) error {
-	select {
-	case <-s.done:
+	if !s.markClosed() {
 		return ErrServerClosed
-	default:
-		close(s.done)
 	}
 
 	var err error
